@@ -11,7 +11,7 @@ WEIGHTS = dict(DeleteShadow=8, Shading=3, ShadowOf=2, Group=1, Ungroup=1, Resequ
 def run(tier, seed):
     rng = random.Random(seed * 198491317 + 4)
     mcs = [core.mc("MC_Acl", "MC_Acl" if tier == "quick" else "MC_Acl_4")]
-    n = 1800 if tier == "quick" else 50000
+    n = 1800 if tier == "quick" else 15000
     jobs = [aclhist.make_history(rng, t, WEIGHTS, nops=rng.randint(1, 5)) for t in range(1, n + 1)]
     aclhist.fill_permutations(rng, jobs)
     tjobs, gen = aclhist.tlc_histories(tier, seed, len(jobs) + 1, want={"DeleteShadow"}, cap=1500 if tier == "quick" else 20000)
